@@ -377,6 +377,9 @@ func (f *pFakeExec) SetStderr(w io.Writer) { f.mu.Lock(); f.stderr = w; f.mu.Unl
 func (f *pFakeExec) Run() error {
 	h := f.h
 	h.log(pEvent{Ev: "ExecRunBegin", ID: pInt(f.idx), Outlen: pInt(h.out.Len())})
+	if f.pause {
+		h.pause("exec:" + strconv.Itoa(f.idx))
+	}
 	got := []int{}
 	f.mu.Lock()
 	in := f.stdin
@@ -396,9 +399,6 @@ func (f *pFakeExec) Run() error {
 			got = pToInts(r.b)
 		case <-time.After(100 * time.Millisecond):
 		}
-	}
-	if f.pause {
-		h.pause("exec:" + strconv.Itoa(f.idx))
 	}
 	time.Sleep(20 * time.Millisecond)
 	h.log(pEvent{Ev: "ExecRunEnd", ID: pInt(f.idx), Outlen: pInt(h.out.Len()), Read: &got})
